@@ -544,7 +544,9 @@ def PForest.reparsed : PForest → PForest
 def PTree.reparsed (t : PTree) : PTree := ⟨t.label, t.kids.reparsed⟩
 
 /-- every `# dns_resolver "…";` statement stays on one line (a raw line feed inside its literal would end the comment
-early and leave the rest of the statement as unparsable text) -/
+early and leave the rest of the statement as unparsable text).  Since text values take the bytes path a line feed is
+written `\n`: the predicate holds for every well-formed configuration (`resolver_comment_one_line`); the driver still
+evaluates it. -/
 def PForest.commentsOneLine : PForest → Bool
   | .nil => true
   | .tok _ _ r => r.commentsOneLine
